@@ -221,6 +221,9 @@ class Circuit:
                 # normal simtask exit is not possible
                 msg = f"The simulation task failed with error: {self._simtask.exception()}"
             raise EdzedInvalidState(msg)
+        if self._error is not None:
+            # the simulation has failed (e.g. in the very first evaluation), the cleanup is in progress
+            raise EdzedInvalidState(f"The simulation task is terminating: {self._error!r}")
 
     def check_not_finalized(self) -> None:
         """Raise an error if the circuit has been finalized."""
